@@ -94,6 +94,11 @@ template <class S> static std::string string_from(const std::string &srcname, co
     const S *p = null ? nullptr : ex.p; size_t n = null ? 0 : ex.n;
     auto V = mode_of(m); bool dflt = m == "d";
     typedef std::basic_string<S> SS; typedef std::basic_string_view<S> SV;
+    // character concatenation, one unit at a time: every unit is widened on its own to a code point (char through unsigned
+    // char = Latin-1, char16_t / wchar_t / char32_t as they are), so the result is the transcoding of the units read as scalars
+    if (route == "plus_r") { ST::string s; for (size_t i = 0; i < n; ++i) s = s + p[i]; return show(s); }
+    if (route == "plus_l") { ST::string s; for (size_t i = n; i-- > 0;) s = p[i] + s; return show(s); }
+    if (route == "pluseq") { ST::string s; for (size_t i = 0; i < n; ++i) s += p[i]; return show(s); }
     if constexpr (std::is_same<S, char>::value) if (srcname == "l1") {
         if (route == "from_ptr") return show(ST::string::from_latin_1(p, n));
         if (route == "from_buf") return show(ST::string::from_latin_1(null ? ST::char_buffer() : ST::char_buffer(p, n)));
@@ -128,22 +133,31 @@ template <class S> static std::string string_from(const std::string &srcname, co
         if (route == "ctor_u8std") { std::u8string ss((const char8_t *)(p ? p : ""), n); return show(dflt ? ST::string(ss) : ST::string(ss, V)); }
         if (route == "literal") { using namespace ST::literals; return show(operator""_st(p ? p : "", n)); }
         if (route == "validated") return show(ST::string::from_validated(p ? p : "", n));
+        if (route == "validated_c8") return show(ST::string::from_validated((const char8_t *)(p ? p : ""), n));
+        if (route == "literal_c8") { using namespace ST::literals; return show(operator""_st((const char8_t *)(p ? p : ""), n)); }
+        if (route == "ctor_c8_z") return show(ST::string((const char8_t *)p));
+        if (route == "from_c8_z") return show(ST::string::from_utf8((const char8_t *)p));
+        if (route == "stbuf") { using namespace ST::literals; return show(ST::string(operator""_stbuf(p ? p : "", n))); }
+        if (route == "stbuf_c8") { using namespace ST::literals; return show(ST::string(operator""_stbuf((const char8_t *)(p ? p : ""), n))); }
     } else if constexpr (std::is_same<S, char16_t>::value) {
         if (route == "from_ptr") return show(dflt ? ST::string::from_utf16(p, n) : ST::string::from_utf16(p, n, V));
         if (route == "from_ptr_z") return show(ST::string::from_utf16(p));
         if (route == "from_buf") return show(dflt ? ST::string::from_utf16(sb) : ST::string::from_utf16(sb, V));
         if (route == "literal") { using namespace ST::literals; return show(operator""_st(p ? p : u"", n)); }
+        if (route == "stbuf") { using namespace ST::literals; return show(ST::string::from_utf16(operator""_stbuf(p ? p : u"", n))); }
     } else if constexpr (std::is_same<S, char32_t>::value) {
         if (route == "from_ptr") return show(dflt ? ST::string::from_utf32(p, n) : ST::string::from_utf32(p, n, V));
         if (route == "from_ptr_z") return show(ST::string::from_utf32(p));
         if (route == "from_buf") return show(dflt ? ST::string::from_utf32(sb) : ST::string::from_utf32(sb, V));
         if (route == "literal") { using namespace ST::literals; return show(operator""_st(p ? p : U"", n)); }
+        if (route == "stbuf") { using namespace ST::literals; return show(ST::string::from_utf32(operator""_stbuf(p ? p : U"", n))); }
     } else {
         if (route == "from_ptr") return show(dflt ? ST::string::from_wchar(p, n) : ST::string::from_wchar(p, n, V));
         if (route == "from_ptr_z") return show(ST::string::from_wchar(p));
         if (route == "from_buf") return show(dflt ? ST::string::from_wchar(sb) : ST::string::from_wchar(sb, V));
         if (route == "from_stdw") { SS ss(p ? p : L"", n); return show(dflt ? ST::string::from_std_wstring(ss) : ST::string::from_std_wstring(ss, V)); }
         if (route == "literal") { using namespace ST::literals; return show(operator""_st(p ? p : L"", n)); }
+        if (route == "stbuf") { using namespace ST::literals; return show(ST::string::from_wchar(operator""_stbuf(p ? p : L"", n))); }
     }
     return "bad-route";
 }
@@ -174,9 +188,9 @@ static std::string string_to(const std::string &dst, const std::string &route, b
         if (route == "std") return show_std(s.to_std_wstring());
         if (route == "std_ref") { std::wstring r; s.to_std_string(r); return show_std(r); }
     } else if (dst == "l1") {
-        if (route == "member") return show(s.to_latin_1(sub));
+        if (route == "member") return show(sub ? same_as_default(s.to_latin_1(sub), s.to_latin_1()) : s.to_latin_1(sub));      // substitute_out_of_range defaults to true
         if (route == "buffer") { ST::char_buffer b; s.to_buffer(b, false, sub); return show(b); }
-        if (route == "std") return show_std(s.to_std_string(false, sub));
+        if (route == "std") return show_std(sub ? same_as_default(s.to_std_string(false, sub), s.to_std_string(false)) : s.to_std_string(false, sub));
     }
     return "bad-route";
 }
@@ -258,9 +272,12 @@ struct RouteSet {
     std::vector<std::string> from_routes(const std::string &src) const {
         std::vector<std::string> r = {"ctor_ptr", "ctor_ptr_z", "set_ptr", "set_ptr_z", "assign_ptr_z", "ctor_buf", "set_buf", "assign_buf", "ctor_std", "set_std",
                                       "assign_std", "from_std", "ctor_view", "set_view", "from_view", "from_ptr", "from_ptr_z", "from_buf", "literal"};
-        if (src == "u8") for (const char *x : {"ctor_bufmove", "set_bufmove", "assign_bufmove", "ctor_c8", "from_c8", "ctor_u8std", "validated"}) r.push_back(x);
+        if (src == "u8") for (const char *x : {"ctor_bufmove", "set_bufmove", "assign_bufmove", "ctor_c8", "from_c8", "ctor_u8std", "validated",
+                                               "validated_c8", "literal_c8", "ctor_c8_z", "from_c8_z", "stbuf_c8"}) r.push_back(x);
         if (src == "w") r.push_back("from_stdw");
-        if (src == "l1") r = {"from_ptr", "from_buf", "from_ptr_z"};
+        r.push_back("stbuf");
+        if (src != "u8") for (const char *x : {"plus_r", "plus_l", "pluseq"}) r.push_back(x);
+        if (src == "l1") r = {"from_ptr", "from_buf", "from_ptr_z", "plus_r", "plus_l", "pluseq"};
         return r;
     }
     std::vector<std::string> to_routes(const std::string &dst) const {
@@ -272,7 +289,8 @@ struct RouteSet {
 
 // which mode a route really applies when the line says m=X (routes without a mode parameter)
 static bool route_takes_mode(const std::string &route) {
-    return !(route.size() > 2 && route.substr(route.size() - 2) == "_z") && route.rfind("assign_", 0) != 0 && route != "literal" && route != "validated";
+    return !(route.size() > 2 && route.substr(route.size() - 2) == "_z") && route.rfind("assign_", 0) != 0 && route != "literal" && route != "validated" &&
+           route != "validated_c8" && route != "literal_c8" && route.rfind("stbuf", 0) != 0 && route.rfind("plus", 0) != 0;
 }
 
 static const std::vector<std::string> ENCS = {"u8", "u16", "u32", "w", "l1"};
